@@ -509,6 +509,20 @@ pub fn run_c09(toks: &[&str]) -> Lines {
             why.push("streaming-walk".into());
         }
         out.push(("obs", format!("stream files={} {} cas={} {}", nf, cksum(&fblob), nc, cksum(&cblob))));
+        // the minimal reader's buffer: what MDBMinimalShard::serialize writes between the 48-byte header and the 200-byte footer
+        let mut r4 = Cursor::new(&bytes);
+        match MDBMinimalShard::from_reader(&mut r4, true, true) {
+            Ok(ms) => {
+                let mut nt = vec![];
+                let _ = ms.serialize(&mut nt);
+                if nt.len() >= 248 {
+                    out.push(("obs", format!("min data={} files={} cas={}", cksum(&nt[48..nt.len() - 200]), ms.num_files(), ms.num_cas())));
+                } else {
+                    out.push(("obs", "min short".to_string()));
+                }
+            },
+            Err(_) => out.push(("obs", "min error".to_string())),
+        }
     }
     // lookups
     let mut nq = 0;
